@@ -397,3 +397,168 @@ func decompressNonEmpty(c *core.Ctx) {
 	}
 	c.Floor("Decompress call sites", sites, 2)
 }
+
+func init() {
+	register(&core.Rule{ID: "handler-never-drains-request", Run: handlerNeverDrainsRequest,
+		Doc: "Handler conns close the request body but never read it to the end on their own (no discard, io.Copy or io.ReadAll of the request body in their methods): a client that has not closed its side would block the response, which is only flushed afterwards."})
+	register(&core.Rule{ID: "request-bound-to-context", Run: requestBoundToContext,
+		Doc: "Every *http.Request the library creates is created with the call's context (http.NewRequestWithContext, never http.NewRequest): cancelling the context must interrupt an exchange that is blocked inside the HTTP client."})
+}
+
+func handlerNeverDrainsRequest(c *core.Ctx) {
+	p := c.P
+	info := p.Connect.TypesInfo
+	methods, bad := 0, 0
+	for _, n := range handlerConnTypes(p) {
+		for i := 0; i < n.NumMethods(); i++ {
+			fd := p.Decl(n.Method(i))
+			if fd == nil {
+				continue
+			}
+			methods++
+			for _, call := range astx.CallsDeep(fd.Body) {
+				f := astx.CalleeFunc(info, call)
+				if f == nil {
+					continue
+				}
+				drains := f.Name() == "discard" || astx.IsPkgFunc(f, "io", "Copy") || astx.IsPkgFunc(f, "io", "CopyN") || astx.IsPkgFunc(f, "io", "ReadAll")
+				if !drains {
+					continue
+				}
+				fromBody := false
+				for _, a := range call.Args {
+					ast.Inspect(a, func(x ast.Node) bool {
+						if sel, ok := x.(*ast.SelectorExpr); ok && sel.Sel.Name == "Body" && astx.TypeIs(derefType(info.TypeOf(sel.X)), "net/http", "Request") {
+							fromBody = true
+						}
+						return true
+					})
+				}
+				if fromBody {
+					bad++
+					c.Violation(fmt.Sprintf("drain/%s#%d", core.FuncName(fd), bad), call.Pos(), "%s reads the rest of the request body (%s): the handler's response waits for a peer that may not have finished sending", core.FuncName(fd), types.ExprString(call.Fun))
+				}
+			}
+		}
+	}
+	c.Ok("inventory", p.Connect.Syntax[0].Pos(), "%d handler conn method(s), %d that drain the request body", methods, bad)
+	c.Floor("handler conn methods", methods, 10)
+}
+
+func requestBoundToContext(c *core.Ctx) {
+	p := c.P
+	info := p.Connect.TypesInfo
+	with, without := 0, 0
+	for _, fd := range p.AllFuncDecls(p.Connect) {
+		for _, call := range astx.CallsDeep(fd.Body) {
+			callee := astx.Callee(info, call)
+			if astx.IsPkgFunc(callee, "net/http", "NewRequestWithContext") {
+				with++
+			}
+			if astx.IsPkgFunc(callee, "net/http", "NewRequest") {
+				without++
+				c.Violation(fmt.Sprintf("new-request/%s#%d", core.FuncName(fd), without), call.Pos(), "%s builds the request without a context", core.FuncName(fd))
+			}
+		}
+	}
+	c.Ok("inventory", p.Connect.Syntax[0].Pos(), "%d request(s) created with a context, %d without", with, without)
+	c.Floor("requests created with the call's context", with, 1)
+}
+
+func init() {
+	register(&core.Rule{ID: "err-not-overwritten", Run: errNotOverwritten,
+		Doc: "An error returned by a call and stored in a variable is looked at (tested, returned, passed on) before that variable is assigned again on the same path: a failed write or read must not be forgotten because a later operation on the same variable happened to succeed."})
+}
+
+func errNotOverwritten(c *core.Ctx) {
+	p := c.P
+	info := p.Connect.TypesInfo
+	errT := types.Universe.Lookup("error").Type()
+	isErrVar := func(e ast.Expr) types.Object {
+		id, ok := astx.Unparen(e).(*ast.Ident)
+		if !ok || id.Name == "_" {
+			return nil
+		}
+		v, ok := astx.ObjOf(info, id).(*types.Var)
+		if !ok || v.IsField() {
+			return nil
+		}
+		if types.Identical(v.Type(), errT) || (isPointer(v.Type()) && astx.NamedOf(derefType(v.Type())) != nil && astx.NamedOf(derefType(v.Type())).Obj().Name() == "Error") {
+			return v
+		}
+		return nil
+	}
+	sites, bad := 0, 0
+	for _, fd := range p.AllFuncDecls(p.Connect) {
+		name := core.FuncName(fd)
+		// assignments of an error variable from a call
+		type site struct {
+			as  *ast.AssignStmt
+			obj types.Object
+		}
+		var ss []site
+		ast.Inspect(fd.Body, func(n ast.Node) bool {
+			if _, isLit := n.(*ast.FuncLit); isLit {
+				return false
+			}
+			as, ok := n.(*ast.AssignStmt)
+			if !ok || len(as.Rhs) != 1 {
+				return true
+			}
+			if _, isCall := astx.Unparen(as.Rhs[0]).(*ast.CallExpr); !isCall {
+				return true
+			}
+			for _, l := range as.Lhs {
+				if o := isErrVar(l); o != nil {
+					ss = append(ss, site{as, o})
+				}
+			}
+			return true
+		})
+		if len(ss) == 0 {
+			continue
+		}
+		reported := map[*ast.AssignStmt]bool{}
+		astx.ForEachExit(info, fd.Body, func(s *astx.State, kind astx.ExitKind, ret *ast.ReturnStmt) {
+			for _, st := range ss {
+				at := -1
+				for i, step := range s.Steps {
+					if step == ast.Node(st.as) {
+						at = i
+					}
+				}
+				if at < 0 || reported[st.as] {
+					continue
+				}
+				for _, step := range s.Steps[at+1:] {
+					if !astx.Mentions(info, step, st.obj) {
+						continue
+					}
+					// first later mention: a plain overwrite?
+					if as2, ok := step.(*ast.AssignStmt); ok {
+						writes, reads := false, false
+						for _, l := range as2.Lhs {
+							if astx.ObjOf(info, l) == st.obj {
+								writes = true
+							}
+						}
+						for _, r := range as2.Rhs {
+							if astx.Mentions(info, r, st.obj) {
+								reads = true
+							}
+						}
+						if writes && !reads && as2.Tok != token.DEFINE {
+							reported[st.as] = true
+							bad++
+							c.Violation(fmt.Sprintf("overwritten/%s#%d", name, bad), as2.Pos(), "%s: the error stored at %s is overwritten at %s before anything looked at it", name, p.Pos(st.as.Pos()), p.Pos(as2.Pos()))
+						}
+					}
+					break
+				}
+			}
+		})
+		sites += len(ss)
+	}
+	c.Ok("inventory", p.Connect.Syntax[0].Pos(), "%d error-producing call(s) stored in variables, %d overwritten before use on some path", sites, bad)
+	c.Floor("error-producing calls stored in variables", sites, 60)
+}
